@@ -166,3 +166,20 @@ pub proof fn lemma_chain_end(s: SS, i: int)
         None => { assert(var_end(s, i, 0) == Some(i)); lemma_var_end_mono(s, i, 0, f0); },
     }
 }
+
+pub proof fn lemma_wf_seq_push(s: Seq<Unifiable>, t: Unifiable)
+    requires wf_seq(s), wf(t),
+    ensures wf_seq(s.push(t)),
+    decreases s.len(),
+{
+    if s.len() == 0 {
+        assert(s.push(t).drop_first() =~= Seq::<Unifiable>::empty());
+        assert(wf_seq(s.push(t).drop_first()));
+        assert(s.push(t)[0] == t);
+        assert(s.push(t).len() > 0);
+    } else {
+        lemma_wf_seq_push(s.drop_first(), t);
+        assert(s.push(t).drop_first() =~= s.drop_first().push(t));
+        assert(s.push(t)[0] == s[0]);
+    }
+}
